@@ -28,6 +28,7 @@ pub fn cfg() -> GenCfg {
     // matter of source order, which the static binding model used here does not know)
     g.var_shadow = false;
     g.cond_defs = true;
+    g.tests = true;
     g.max_stmts = 28;
     g.constructs_boost = true;
     g
@@ -58,7 +59,6 @@ fn dead_ranges(prog: &Program, r: &Rendered, invoked: &BTreeSet<String>) -> Vec<
             let dead = match s {
                 Stmt::Loop { count, .. } => !matches!(crate::model::expand::eval_with(consts, count), Some(crate::model::eval::Value::Int(c)) if c >= 1),
                 Stmt::MacroDef { name, .. } => !invoked.contains(name),
-                Stmt::Test { .. } => true,
                 _ => false,
             };
             if dead {
@@ -130,6 +130,11 @@ fn enclosing_macro(p: &Prepared, off: usize) -> Option<String> {
     found
 }
 
+/// a test whose body refers to something the program defines
+pub fn has_test(p: &Prepared) -> bool {
+    p.prog.main().iter().any(|s| matches!(s, Stmt::Test { .. })) && p.text.contains(".test")
+}
+
 pub fn prop(c: &Case, log: &mut CaseLog) -> Verdict {
     let p = match prepare(&c.entropy) {
         Some(p) => p,
@@ -141,6 +146,7 @@ pub fn prop(c: &Case, log: &mut CaseLog) -> Verdict {
     log.label_if(p.bindings.uses.iter().any(|u| u.path.len() > 1), "dotted-or-super-path");
     log.label_if(p.bindings.uses.iter().any(|u| u.in_macro), "use-in-macro");
     log.label_if(p.bindings.uses.iter().any(|u| u.in_string), "use-in-string");
+    log.label_if(has_test(&p), "use-in-test");
     log.nontrivial = nuses >= 3;
     let text = p.text.clone();
     let res = with_server(|s| -> Result<Verdict, LspErr> {
